@@ -287,6 +287,8 @@ def c02(ctx, case, io):
     tags = {}       # (repo, tag) -> digest
     sess = {}
     was_child = set()      # (repo, digest) listed as a child by an acknowledged index push
+    parents = {}           # (repo, child digest) -> digests of the acknowledged indexes that list it
+    orphaned = set()       # (repo, child digest) one of whose listing indexes was deleted (known finding F35 applies)
     claimed = {}           # (repo, digest) -> media types under which acknowledged index pushes list it
     restarted = False
     limit = case["conf"]["mlimit"]
@@ -331,6 +333,7 @@ def c02(ctx, case, io):
                     if body in views and kind_of_mt(mt or "") == "index":
                         for cd in views[body]["manifests"]:
                             was_child.add((repo, cd["dig"]))
+                            parents.setdefault((repo, cd["dig"]), set()).add(d)
                             claimed.setdefault((repo, cd["dig"]), set()).add(cd.get("mt"))
                     if gen.is_tag_py(st["arg"]):
                         tags[(repo, st["arg"])] = d
@@ -341,6 +344,9 @@ def c02(ctx, case, io):
                 mans.pop((repo, st["arg"]), None)
                 for t in [t for t, d in tags.items() if t[0] == repo and d == st["arg"]]:
                     del tags[t]
+                for (r_, c_), ps_ in parents.items():
+                    if r_ == repo and st["arg"] in ps_:
+                        orphaned.add((r_, c_))
         elif kind == "blobdel" and status == 202:
             blobs.pop((repo, st["arg"]), None)
             mans.pop((repo, st["arg"]), None)
@@ -356,24 +362,44 @@ def c02(ctx, case, io):
             if kind != "expire":
                 sess.clear()
                 pol = case["conf"]
-                if kind == "gc" and not pol.get("untagged") and not res.get("err"):
-                    keep = set()
-                    for (r_, d_), (body_, _mt, _ms) in mans.items():
-                        keep.add((r_, d_))
-                        v_ = views.get(body_)
-                        if v_:
+                if kind == "gc":
+                    restarted = True        # (a collection re-reads the index like a restart does: known finding F35 applies)
+                if kind == "gc" and not res.get("err"):
+                    # what this check still expects after a collection: the tagged manifests of the repository and everything they
+                    # reference, transitively (every policy retains those); the rest is C05 / C06's business and is forgotten
+                    r0 = st.get("repo")
+                    keep, work = set(), [d_ for (r_, t_), d_ in tags.items() if r_ == r0]
+                    while work:
+                        d_ = work.pop()
+                        if (r0, d_) in keep:
+                            continue
+                        keep.add((r0, d_))
+                        ent = mans.get((r0, d_))
+                        v_ = views.get(ent[0]) if ent else None
+                        if v_ and ent[1] and kind_of_mt(ent[1]) == "image":
                             if v_.get("config"):
-                                keep.add((r_, v_["config"]["dig"]))
-                            for x_ in (v_.get("layers") or []) + (v_.get("manifests") or []):
-                                keep.add((r_, x_["dig"]))
-                    for key_ in [key_ for key_ in blobs if key_ not in keep and key_[0] == st.get("repo")]:
+                                keep.add((r0, v_["config"]["dig"]))
+                            for x_ in v_.get("layers") or []:
+                                keep.add((r0, x_["dig"]))
+                        elif v_ and ent[1] and kind_of_mt(ent[1]) == "index":
+                            for x_ in v_.get("manifests") or []:
+                                if kind_of_mt(x_.get("mt") or "") in ("image", "index"):
+                                    work.append(x_["dig"])
+                                else:
+                                    keep.add((r0, x_["dig"]))
+                    for key_ in [key_ for key_ in blobs if key_[0] == r0 and key_ not in keep]:
                         del blobs[key_]
+                    for key_ in [key_ for key_ in mans if key_[0] == r0 and key_ not in keep]:
+                        del mans[key_]
                 else:
                     blobs.clear(); mans.clear(); tags.clear()
         elif kind == "blobget":
             want = blobs.get((repo, st["arg"]))
             if want is not None:
-                check_read(ctx, case, k, st, res, want, st["arg"], None, "blob")
+                sigb = None
+                if restarted and (repo, st["arg"]) in orphaned and st["arg"] not in [v for (r_, t), v in tags.items() if r_ == repo]:
+                    sigb = "C02:child-manifest-lost-after-index-delete-and-restart"       # (the blob of such a manifest goes with it)
+                check_read(ctx, case, k, st, res, want, st["arg"], None, "blob", lost_sig=sigb)
         elif kind == "mget":
             if gen.is_tag_py(st["arg"]):
                 d = tags.get((repo, st["arg"]))
@@ -384,7 +410,7 @@ def c02(ctx, case, io):
                 # every Accept list containing the stored type must be served
                 if None in mset or all(m in accept_list(st["accept"]) for m in mset):
                     sig = None
-                    if restarted and (repo, d) in was_child and d not in [v for (r_, t), v in tags.items() if r_ == repo]:
+                    if restarted and (repo, d) in orphaned and d not in [v for (r_, t), v in tags.items() if r_ == repo]:
                         sig = "C02:child-manifest-lost-after-index-delete-and-restart"
                     # (known finding F55: a manifest that lives in the child list is served under the media type the index that
                     #  lists it claims for it)
